@@ -427,8 +427,58 @@ class Watch:
 _HOST_MODULES_AT_START = frozenset(sys.modules)
 
 
+class Procs:
+    """The processes of this worker that are being watched: the host itself and the helpers
+    of the environments in use.  Helpers inherit the host's working directory when they are
+    spawned, so a change of working directory retires them."""
+    cwd = None
+    envs = {}
+    watch = {}
+
+    @classmethod
+    def switch(cls, cwd):
+        if cls.cwd != cwd:
+            cls.kill_helpers()
+            cls.watch = {}
+            os.chdir(cwd)
+            cls.cwd = cwd
+
+    @classmethod
+    def env(cls, kind):
+        if kind not in cls.envs:
+            jedi = boot.boot()
+            if kind == 'helper':
+                from jedi.api.environment import SameEnvironment
+                cls.envs[kind] = SameEnvironment()
+            elif kind == 'inproc':
+                cls.envs[kind] = jedi.InterpreterEnvironment()
+            elif kind == 'default':
+                # what Project.search uses: Project.get_environment() without environment_path
+                from jedi.api.environment import get_cached_default_environment
+                cls.envs[kind] = get_cached_default_environment()
+            else:
+                raise ValueError(kind)
+        return cls.envs[kind]
+
+    @classmethod
+    def kill_helpers(cls):
+        for kind in ('helper', 'default'):
+            e = cls.envs.pop(kind, None)
+            if e is not None:
+                try:
+                    e._get_subprocess()._kill()
+                except Exception:
+                    pass
+                if kind == 'default':
+                    from jedi.api import environment
+                    environment._get_cached_default_environment.clear_cache()
+            cls.watch.pop(kind, None)
+
+
 class World:
-    def __init__(self, variant, cwd_mode, so_template, tag=''):
+    """One generated tree."""
+
+    def __init__(self, variant, so_template, tag=''):
         self.jedi = boot.boot()
         base = os.path.join(boot.scratch_root(), 'c12', 'w%d%s' % (os.getpid(), tag))
         self.root = os.path.join(base, 'tree-' + variant)
@@ -449,26 +499,17 @@ class World:
             parts = m['name'].split('.')
             for i in range(1, len(parts) + 1):
                 self.names.add('.'.join(parts[:i]))
-        self.cwd_mode = cwd_mode
-        os.chdir(self.root if cwd_mode == 'project' else self.neutral)
+        self.touch_names = {n.split('.')[-1] for n in self.names} | {'func', 'K', 'attr', 'meth',
+                                                                      'VALUE', 'fix', 'plugfix',
+                                                                      'tfix'}
         self.seq = 0
-        self.envs = {}          # kind -> Environment
-        self.watch = {}         # where -> Watch
+
+    def enter(self, cwd_mode):
+        Procs.switch(self.root if cwd_mode == 'project' else self.neutral)
+        return self
 
     def env(self, kind):
-        if kind not in self.envs:
-            if kind == 'helper':
-                from jedi.api.environment import SameEnvironment
-                self.envs[kind] = SameEnvironment()
-            elif kind == 'inproc':
-                self.envs[kind] = self.jedi.InterpreterEnvironment()
-            elif kind == 'default':
-                # what Project.search uses: Project.get_environment() without environment_path
-                from jedi.api.environment import get_cached_default_environment
-                self.envs[kind] = get_cached_default_environment()
-            else:
-                raise ValueError(kind)
-        return self.envs[kind]
+        return Procs.env(kind)
 
     def clear_sentinel(self):
         try:
@@ -487,20 +528,20 @@ class World:
         """Relative paths of tree files that ran since the sentinel was last cleared."""
         return sorted({ln.partition(' ')[2] for ln in self.sentinel_lines()})
 
-    def check(self, wheres, full=False):
+    def _watch(self, w):
+        if w not in Procs.watch:
+            Procs.watch[w] = Watch(w, None if w == 'host' else Procs.env(w))
+            return Procs.watch[w], True
+        return Procs.watch[w], False
+
+    def check(self, wheres, full=False, repair='purge'):
         """One observation of every watched process.  -> [(site, detail)]"""
         found = []
         for w in wheres:
-            if w not in self.watch:
-                self.watch[w] = Watch(w, None if w == 'host' else self.env(w))
-                full_w = True
-            else:
-                full_w = full
-            found += self.watch[w].step(self.root, self.names, full=full_w)
+            watch, new = self._watch(w)
+            found += watch.step(self.root, self.names, full=full or new)
         if os.path.exists(self.sentinel):
-            pids = {}
-            for w in wheres:
-                pids[self.watch[w].pid] = self.watch[w].who
+            pids = {Procs.watch[w].pid: Procs.watch[w].who for w in wheres}
             by = {}
             for ln in self.sentinel_lines():
                 pid, _, rel = ln.partition(' ')
@@ -509,17 +550,20 @@ class World:
             for who, rels in sorted(by.items()):
                 found.insert(0, ('project-code-executed@' + who, {'executed_files': sorted(rels)}))
         if found:
-            self.repair(wheres)
+            self.repair(wheres, repair)
         return found
 
-    def repair(self, wheres):
-        """After a violation: put the watched state back so that later cases are judged alone."""
+    def repair(self, wheres, how='purge'):
+        """After a violation: put the watched state back so that later cases are judged alone.
+        how='purge': the helper is asked (eval request, harness only) to forget the tree's
+        modules and to restore its sys.path/cwd; how='restart' or a failing purge: the helpers
+        are replaced."""
         self.clear_sentinel()
         for k, v in list(sys.modules.items()):
             f = getattr(v, '__file__', None)
             if _under(f, self.root) or (k in self.names and k not in _HOST_MODULES_AT_START):
                 del sys.modules[k]
-        h = self.watch.get('host')
+        h = Procs.watch.get('host')
         if h is not None and h.path is not None:
             sys.path[:] = h.path
             os.chdir(h.cwd)
@@ -527,24 +571,27 @@ class World:
                 if k not in h.environ:
                     del os.environ[k]
             os.environ.update(h.environ)
-        self.kill_helpers()
-        self.watch = {}
+        if how == 'purge':
+            try:
+                for w in wheres:
+                    watch = Procs.watch.get(w)
+                    if w == 'host' or watch is None or watch.path is None:
+                        continue
+                    expr = ("[sys.modules.pop(k, None) for k in list(sys.modules) if k in %r or "
+                            "str(getattr(sys.modules[k], '__file__', None)).startswith(%r)] and "
+                            "None, sys.path.__setitem__(slice(None), %r), os.chdir(%r), "
+                            "[os.environ.pop(k) for k in list(os.environ) if k not in %r], "
+                            "os.environ.update(%r)"
+                            % (sorted(self.names - {'__main__'}), self.root + os.sep, watch.path,
+                               watch.cwd, sorted(watch.environ), watch.environ))
+                    watch.env._get_subprocess()._send(None, eval, (expr,))
+            except Exception:
+                how = 'restart'
+        if how == 'restart':
+            Procs.kill_helpers()
+        Procs.watch = {}
         for w in wheres:
-            self.watch[w] = Watch(w, None if w == 'host' else self.env(w))
-            self.watch[w].step(self.root, self.names, full=True)
-
-    def kill_helpers(self):
-        for kind in ('helper', 'default'):
-            e = self.envs.pop(kind, None)
-            if e is not None:
-                try:
-                    e._get_subprocess()._kill()
-                except Exception:
-                    pass
-                if kind == 'default':
-                    from jedi.api import environment
-                    environment._get_cached_default_environment.clear_cache()
-            self.watch.pop(kind, None)
+            self._watch(w)[0].step(self.root, self.names, full=True)
 
     def fresh_path(self, bufdir, stem='c12b'):
         self.seq += 1
@@ -569,10 +616,9 @@ def _init():
 
 
 def _world(variant, cwd_mode):
-    key = (variant, cwd_mode)
-    if key not in _worlds:
-        _worlds[key] = World(variant, cwd_mode, _so_template)
-    return _worlds[key]
+    if variant not in _worlds:
+        _worlds[variant] = World(variant, _so_template)
+    return _worlds[variant].enter(cwd_mode)
 
 
 # ------------------------------------------------------------------------------------------
@@ -582,7 +628,7 @@ def _world(variant, cwd_mode):
 REFACTORINGS = ('rename', 'inline', 'extract_variable', 'extract_function')
 
 
-def _touch(method, res, root, deep):
+def _touch(method, res, root, deep, names=()):
     """Touch the documented attributes of the results; -> module paths the results point to."""
     paths = []
     if method in REFACTORINGS:
@@ -605,7 +651,12 @@ def _touch(method, res, root, deep):
     if method == 'get_signatures':
         for s in res:
             canon.sig_core(s)
-    for r in res:
+    for i, r in enumerate(res):
+        # cheap attributes (they force the inference of the name) of every result that is named
+        # like something of the tree, and of the first 5 others: `import ` completes to every
+        # module of the standard library, whose analysis is not the subject here
+        if i >= 5 and r.name not in names and len(res) > 40:
+            continue
         mp = r.module_path
         if mp is not None:
             paths.append(str(mp))
@@ -637,7 +688,7 @@ class Battery:
             with warnings.catch_warnings(record=True) as wl:
                 warnings.simplefilter('always')
                 res = fn()
-                paths = _touch(method, res, self.w.root, self.deep)
+                paths = _touch(method, res, self.w.root, self.deep, self.w.touch_names)
             for wmsg in wl:
                 s = str(wmsg.message)
                 if 'not importable' in s or 'Cannot import' in s:
@@ -710,7 +761,7 @@ def _script_battery(world, envkind, opt, bufdir, stem, code_marked, deep, path=N
 
 
 PROJECT_CALLS = [('search', {}), ('search', {'all_scopes': True}), ('complete_search', {}),
-                 ('complete_search', {'fuzzy': True})]
+                 ('complete_search', {'all_scopes': True})]
 
 
 def _project_battery(world, opt, string, deep, only_call=None):
@@ -780,35 +831,61 @@ def _work(task):
 # controls (non-vacuity of generator and observation channel)
 # ------------------------------------------------------------------------------------------
 
-def _child(world, args):
-    env = dict(os.environ)
-    env.pop('LD_PRELOAD', None)
-    world.clear_sentinel()
-    subprocess.run([sys.executable, '-S', '-B'] + args, cwd=world.neutral, env=env,
-                   capture_output=True, timeout=120)
-    ex = world.executed()
-    world.clear_sentinel()
-    return ex
+CONTROL_CHILD = r"""
+import os, runpy, site, sys
+root, sentinel, out = sys.argv[1:4]
+mods = eval(sys.argv[4])
+ran = {}
+def take(label):
+    try:
+        with open(sentinel) as f:
+            lines = sorted({ln.partition(' ')[2] for ln in f.read().split('\n') if ln})
+        os.unlink(sentinel)
+    except FileNotFoundError:
+        lines = []
+    ran[label] = lines
+for sym, name, top in mods:
+    sys.path.insert(0, top)
+    try:
+        __import__(name)
+    except BaseException:
+        pass
+    sys.path.remove(top)
+    take(sym)
+for label, fn in [('site.addsitedir(root): *.pth', lambda: site.addsitedir(root)),
+                  ('runpy <root> (__main__.py)', lambda: runpy.run_path(root)),
+                  ('runpy bo/bin/script', lambda: runpy.run_path(os.path.join(root, 'bo', 'bin', 'script'))),
+                  ('import app.settings', lambda: (sys.path.insert(0, os.path.join(root, 'dj')),
+                                                   __import__('app.settings')))]:
+    try:
+        fn()
+    except BaseException:
+        pass
+    take(label)
+import json
+with open(out, 'w') as f:
+    json.dump(ran, f)
+"""
 
 
 def _control_cpython(task):
     """Positive control of the generator: CPython really importing/running each file of the
-    tree writes the sentinel line of that file."""
-    world = World(task['variant'], 'neutral', _so_template, tag='-ctl')
+    tree (in one clean child interpreter) writes the sentinel line of that file."""
+    world = World(task['variant'], _so_template, tag='-ctl')
+    env = dict(os.environ)
+    env.pop('LD_PRELOAD', None)
+    out = os.path.join(world.neutral, 'control.json')
+    mods = [(m['sym'], m['name'], os.path.join(world.root, m['topdir']) if m['topdir']
+             else world.root) for m in world.mods]
+    subprocess.run([sys.executable, '-S', '-B', '-c', CONTROL_CHILD, world.root, world.sentinel,
+                    out, repr(mods)], cwd=world.neutral, env=env, capture_output=True,
+                   timeout=300)
+    try:
+        with open(out) as f:
+            per = json.load(f)
+    except (OSError, ValueError):
+        per = {}
     ran = set()
-    per = {}
-    for m in world.mods:
-        top = os.path.join(world.root, m['topdir']) if m['topdir'] else world.root
-        code = ("import sys\nsys.path.insert(0, %r)\ntry:\n    __import__(%r)\n"
-                "except BaseException:\n    pass\n" % (top, m['name']))
-        per[m['sym']] = _child(world, ['-c', code])
-    per['site.addsitedir(root): *.pth, sitecustomize'] = _child(
-        world, ['-c', "import site\nsite.addsitedir(%r)\nimport sitecustomize\n" % world.root])
-    per['python <root> (__main__.py)'] = _child(world, [world.root])
-    per['python bo/bin/script'] = _child(world, [os.path.join(world.root, 'bo', 'bin', 'script')])
-    per['import app.settings'] = _child(world, ['-c', "import sys\nsys.path.insert(0, %r)\n"
-                                                "import app.settings\n"
-                                                % os.path.join(world.root, 'dj')])
     for v in per.values():
         ran.update(v)
     baited = sorted(rel for rel, data in world.files.items()
@@ -818,36 +895,87 @@ def _control_cpython(task):
 
 
 def _control_optin(task):
-    """Sensitivity control: same tree and buffer, but with the documented opt-in
-    Project(load_unsafe_extensions=True) and throw-away processes.  Reports what got executed."""
-    world = World(task['variant'], 'neutral', _so_template, tag='-opt')
+    """Sensitivity control: the same tree and buffers, but with the documented opt-in
+    Project(load_unsafe_extensions=True).  Reports per import form whether project code ran."""
+    world = World(task['variant'], _so_template, tag='-opt').enter('neutral')
     m = world.by_sym.get(task['sym'])
-    fb = form_buffer(task['form'], m, world.root) if m else None
-    if fb is None:
+    if m is None:
         return {'na': True}
-    bufdir, marked = fb
-    code, positions = split_marks(marked)
     jedi = world.jedi
     out = {}
-    for envkind in ('helper', 'inproc'):
-        env = world.env(envkind)
-        wheres = ['host'] + ([envkind] if envkind == 'helper' else [])
-        world.check(wheres, full=True)
-        project = make_project(jedi, 'UNSAFE-OPT-IN', world.root, env)
-        try:
-            with warnings.catch_warnings():
-                warnings.simplefilter('ignore')
-                s = jedi.Script(code, path=world.fresh_path(bufdir), environment=env,
-                                project=project)
-                for line, col in positions:
-                    s.infer(line, col)
-                    s.complete(line, col)
-        except Exception as e:
-            out[envkind + ':exception'] = canon.exc_site(e)
-        found = world.check(wheres, full=True)
-        out[envkind] = sorted(s for s, _ in found)
-    world.kill_helpers()
+    for form in FORMS:
+        fb = form_buffer(form, m, world.root)
+        if fb is None:
+            continue
+        bufdir, marked = fb
+        code, positions = split_marks(marked)
+        res = {}
+        for envkind in ('helper', 'inproc'):
+            env = world.env(envkind)
+            wheres = ['host'] + ([envkind] if envkind == 'helper' else [])
+            world.check(wheres, full=True, repair='purge')
+            project = make_project(jedi, 'UNSAFE-OPT-IN', world.root, env)
+            try:
+                with warnings.catch_warnings():
+                    warnings.simplefilter('ignore')
+                    s = jedi.Script(code, path=world.fresh_path(bufdir), environment=env,
+                                    project=project)
+                    for line, col in positions:
+                        s.infer(line, col)
+                        s.complete(line, col)
+            except Exception as e:
+                res[envkind + ':exception'] = canon.exc_site(e)
+            res[envkind] = sorted(s for s, _ in world.check(wheres, full=True, repair='purge'))
+        out[form] = res
+    Procs.kill_helpers()
+    return {'forms': out}
+
+
+def _probe_project_json(task):
+    """NOT judged (outside the property's premise, see assumptions): what happens when the
+    analysed tree itself carries jedi's project configuration and Script() is used without an
+    explicit project.  Recorded in the evidence so the fact is not lost."""
+    world = World('m', _so_template, tag='-cfg').enter('neutral')
+    jedi = world.jedi
+    out = {}
+    cfg = os.path.join(world.root, '.jedi', 'project.json')
+    os.makedirs(os.path.dirname(cfg), exist_ok=True)
+    name = world.autos[0] if world.autos else 'gi'
+    with open(cfg, 'w') as f:
+        json.dump([1, {'path': world.root, 'load_unsafe_extensions': True}], f)
+    env = world.env('helper')
+    world.check(['host', 'helper'], full=True)
+    try:
+        s = jedi.Script('import %s\n%s.func\n' % (name, name), path=world.fresh_path(''),
+                        environment=env)
+        s.infer(2, len(name) + 2)
+    except Exception as e:
+        out['exception'] = canon.exc_site(e)
+    found = world.check(['host', 'helper'], full=True)
+    out['load_unsafe_extensions=true in <tree>/.jedi/project.json'] = sorted(
+        '%s %s' % (site, d.get('executed_files', '')) for site, d in found)
+    fake = os.path.join(world.root, 'venv', 'bin', 'python')
+    os.makedirs(os.path.dirname(fake), exist_ok=True)
+    with open(fake, 'w') as f:
+        f.write('#!/bin/sh\necho "$$ venv/bin/python" >> %s\nexec %s "$@"\n'
+                % (world.sentinel, sys.executable))
+    os.chmod(fake, 0o755)
+    with open(cfg, 'w') as f:
+        json.dump([1, {'path': world.root, 'environment_path': fake}], f)
+    try:
+        s = jedi.Script('import os\nos.path\n', path=world.fresh_path(''))
+        s.infer(2, 4)
+    except Exception as e:
+        out['exception2'] = canon.exc_site(e)
+    out['environment_path=<tree>/venv/bin/python in <tree>/.jedi/project.json'] = world.executed()
+    world.clear_sentinel()
+    Procs.kill_helpers()
     return out
+
+
+def _control_any(task):
+    return {'cpython': _control_cpython, 'optin': _control_optin,
+            'project_json': _probe_project_json}[task['control']](task)
 
 
 # ------------------------------------------------------------------------------------------
@@ -930,54 +1058,55 @@ def _levels(tier, autos, have_so):
 
 
 def _controls(ctx, autos, have_so):
-    """Run the two control families; harness error when the check would be vacuous."""
-    ctl_tasks = [{'variant': 'm'}, {'variant': 'p'}]
-    pres = pool.run(ctl_tasks, 'jv.props.c12:_control_cpython', init='jv.props.c12:_init',
-                    seed=ctx.seed, tag='c12c')
-    ctx.absorb(pres, 'cpython control')
-    cp = {}
-    n_files = {}
-    for i, t in enumerate(ctl_tasks):
-        r = pres.results.get(i)
-        if r is None:
-            ctx.harness_error('cpython control %s did not run' % t)
-            continue
-        n_files[t['variant']] = len(r['files'])
-        # .pyi files and the text file with the extension suffix cannot be run by CPython either:
-        # they are bait only.  Everything else must have run at least once.
-        must = [f for f in r['never_ran_under_cpython']
-                if not f.endswith('.pyi') and not f == 'x' + EXT]
-        cp[t['variant']] = {'side_effecting_files': len(r['side_effecting_files']),
-                            'ran_under_cpython': len(r['side_effecting_files'])
-                            - len(r['never_ran_under_cpython']),
-                            'bait_only(not executable by CPython either)':
-                                sorted(set(r['never_ran_under_cpython']) - set(must))}
-        if must:
-            ctx.harness_error('generator control: CPython ran these files without a sentinel '
-                              'line: %s -- the tree is not side-effecting' % must)
+    """Run the control families; harness error when the check would be vacuous."""
     unsafe = [('m', 'auto:%s.py' % a) for a in autos]
     unsafe += [('p', 'auto:%s/__init__.py' % a) for a in autos]
     unsafe += [('p', 'auto:%s/repository.py' % a) for a in autos]
     if have_so:
         unsafe.append(('m', 'xs%s(real)' % EXT))
     negative = [('m', 'x%s(text)' % EXT), ('m', 'setup.py'), ('m', 'conftest.py')]
-    opt_tasks = [{'variant': v, 'sym': s, 'form': f} for v, s in unsafe + negative for f in FORMS]
-    pres = pool.run(opt_tasks, 'jv.props.c12:_control_optin', init='jv.props.c12:_init',
-                    seed=ctx.seed, tag='c12o')
-    ctx.absorb(pres, 'opt-in control')
+    tasks = [{'control': 'cpython', 'variant': 'm'}, {'control': 'cpython', 'variant': 'p'},
+             {'control': 'project_json'}]
+    tasks += [{'control': 'optin', 'variant': v, 'sym': s} for v, s in unsafe + negative]
+    pres = pool.run(tasks, 'jv.props.c12:_control_any', init='jv.props.c12:_init',
+                    seed=ctx.seed, tag='c12c')
+    ctx.absorb(pres, 'controls')
+    cp = {}
+    n_files = {}
     optin = {}
-    for i, t in enumerate(opt_tasks):
+    cfg = None
+    for i, t in enumerate(tasks):
         r = pres.results.get(i)
-        if not r or r.get('na'):
+        if r is None:
+            ctx.harness_error('control %s did not run' % t)
             continue
-        d = optin.setdefault('%s:%s' % (t['variant'], t['sym']),
-                             {'forms': 0, 'forms_executing_in_helper': [],
-                              'forms_executing_in_host(in-process env)': []})
-        d['forms'] += 1
-        if any(s.startswith('project-code-executed') for s in r.get('helper', [])):
-            d['forms_executing_in_helper'].append(t['form'])
-        if any(s.startswith('project-code-executed') for s in r.get('inproc', [])):
-            d['forms_executing_in_host(in-process env)'].append(t['form'])
+        if t['control'] == 'project_json':
+            cfg = r
+        elif t['control'] == 'cpython':
+            n_files[t['variant']] = len(r['files'])
+            # .pyi files and the text file with the extension suffix cannot be run by CPython
+            # either: they are bait only.  Everything else must have run at least once.
+            must = [f for f in r['never_ran_under_cpython']
+                    if not f.endswith('.pyi') and not f == 'x' + EXT]
+            cp[t['variant']] = {
+                'side_effecting_files': len(r['side_effecting_files']),
+                'ran_under_cpython': len(r['side_effecting_files'])
+                - len(r['never_ran_under_cpython']),
+                'bait_only(not executable by CPython either)':
+                    sorted(set(r['never_ran_under_cpython']) - set(must))}
+            if must:
+                ctx.harness_error('generator control: CPython ran these files without a sentinel '
+                                  'line: %s -- the tree is not side-effecting' % must)
+        elif not r.get('na'):
+            d = optin.setdefault('%s:%s' % (t['variant'], t['sym']),
+                                 {'forms': 0, 'forms_executing_in_helper': [],
+                                  'forms_executing_in_host(in-process env)': []})
+            for form, res in r['forms'].items():
+                d['forms'] += 1
+                if any(s.startswith('project-code-executed') for s in res.get('helper', [])):
+                    d['forms_executing_in_helper'].append(form)
+                if any(s.startswith('project-code-executed') for s in res.get('inproc', [])):
+                    d['forms_executing_in_host(in-process env)'].append(form)
     for v, s in unsafe:
         d = optin.get('%s:%s' % (v, s))
         if d is None or not d['forms_executing_in_helper'] \
@@ -985,100 +1114,137 @@ def _controls(ctx, autos, have_so):
             ctx.harness_error('sensitivity control: with load_unsafe_extensions=True the symbol '
                               '%s:%s was NOT executed (%s): the guarded route is not reached, '
                               'the check would be vacuous' % (v, s, d))
-    return cp, optin, n_files
+    return cp, optin, n_files, cfg
+
+
+def _warm_up():
+    """Parse the typeshed builtins once in the parent (in-process environment, no helper is
+    created): forked workers inherit parso's in-memory cache instead of each paying ~2 s."""
+    jedi = boot.boot()
+    try:
+        with warnings.catch_warnings():
+            warnings.simplefilter('ignore')
+            env = jedi.InterpreterEnvironment()
+            d = os.path.join(boot.scratch_root(), 'c12', 'warm')
+            project = jedi.Project(d, smart_sys_path=False)
+            s = jedi.Script('import os, typing, importlib\nos.path\n"".join\n',
+                            path=os.path.join(d, 'warm1.py'), environment=env, project=project)
+            s.infer(2, 5)
+            s.complete(3, 7)
+            s = jedi.Script('import pytest\n\n\n@pytest.fixture\ndef fx():\n    pass\n\n\n'
+                            'def test_x(fx, monkeypatch, f):\n    fx\n',
+                            path=os.path.join(d, 'test_warm2.py'), environment=env,
+                            project=project)
+            s.complete(9, 29)
+            s.infer(9, 12)
+            s.goto(10, 5)
+    except Exception:
+        pass
 
 
 def run(ctx):
     global _so_template
     boot.boot()
+    warnings.simplefilter('ignore')
     autos = auto_names()
     template = build_so_template(os.path.dirname(_so_path()))
     have_so = template is not None
     if not have_so:
         ctx.note('no C compiler: the real shared-object symbol is not generated')
     _so_template = template
-    cp_control, optin, n_files = _controls(ctx, autos, have_so)
+    _warm_up()
+    cp_control, optin, n_files, cfg_probe = _controls(ctx, autos, have_so)
 
     levels, mods = _levels(ctx.tier, autos, have_so)
     sym_files = {(v, m['sym']): m['files'] for v in mods for m in mods[v]}
+    tree_files = {v: sym_files_all(mods, {'variant': v}) for v in mods}
+    # one pool run over the concatenated levels (simplest first): a worker keeps its helpers
+    # while the working directory stays the same (Procs.switch)
+    tasks = []
+    level_of = []
+    for li, (name, ts) in enumerate(levels):
+        tasks += ts
+        level_of += [li] * len(ts)
+    pres = pool.run(tasks, 'jv.props.c12:_work', init='jv.props.c12:_init',
+                    seed=ctx.seed, deadline=ctx.deadline, tag='c12')
+    ctx.absorb(pres, 'exploration')
     states = transitions = na = 0
-    done_levels = []
-    exhaustive = True
     sym_hits, form_hits, opt_hits, env_hits = {}, {}, {}, {}
     exc_sites = {}
     parsed = set()
     pointed = set()
     warned_syms = {}
     shapes = set()
-    samples = []
-    for name, tasks in levels:
-        if ctx.time_left() < 10:
-            exhaustive = False
-            ctx.note('level %s not started (time cap)' % name)
+    skipped = set(pres.skipped)
+    level_skipped = [0] * len(levels)
+    for i in skipped:
+        level_skipped[level_of[i]] += 1
+    for i, t in enumerate(tasks):
+        iid = _input_id(t)
+        if i in pres.crashed:
+            ctx.violation('WorkerDied(exit=%s)' % pres.crashed[i], iid, {'task': t}, {'task': t})
             continue
-        pres = pool.run(tasks, 'jv.props.c12:_work', init='jv.props.c12:_init',
-                        seed=ctx.seed, deadline=ctx.deadline, tag='c12')
-        ctx.absorb(pres, name)
-        for i, t in enumerate(tasks):
-            iid = _input_id(t)
-            if i in pres.crashed:
-                ctx.violation('WorkerDied(exit=%s)' % pres.crashed[i], iid, {'task': t},
-                              {'task': t})
-                continue
-            r = pres.results.get(i)
-            if r is None:
-                continue
-            if 'na' in r:
-                na += 1
-                continue
-            states += 1
-            transitions += r['calls']
-            key = '%s:%s' % (t['variant'], t.get('sym') or (
-                'special:' + t['special'] if t['kind'] == 'special' else 'Project.search'))
-            h = sym_hits.setdefault(key, {'batteries': 0, 'calls': 0, 'calls_with_results': 0,
-                                          'results_in_own_files': 0})
-            own = set(sym_files.get((t['variant'], t.get('sym')), ()))
-            in_tree = sum(n for f, n in r['hit_files'].items() if f in sym_files_all(mods, t))
-            h['batteries'] += 1
-            h['calls'] += r['calls']
-            h['calls_with_results'] += r['nonempty']
-            h['results_in_own_files'] += sum(n for f, n in r['hit_files'].items()
-                                             if (f in own if own else True))
-            pointed.update(f for f in r['hit_files'] if f in sym_files_all(mods, t))
-            if t['kind'] == 'form':
-                fh = form_hits.setdefault(t['form'], {'batteries': 0, 'calls_with_results': 0,
-                                                      'results_in_tree_files': 0})
-                fh['batteries'] += 1
-                fh['calls_with_results'] += r['nonempty']
-                fh['results_in_tree_files'] += in_tree
-            oh = opt_hits.setdefault(t['opt'], {'batteries': 0, 'results_in_tree_files': 0})
-            oh['batteries'] += 1
-            oh['results_in_tree_files'] += in_tree
-            eh = env_hits.setdefault('env=%s/cwd=%s' % (t.get('env', 'default(Project.search)'),
-                                                        t['cwd']), {'batteries': 0, 'calls': 0})
-            eh['batteries'] += 1
-            eh['calls'] += r['calls']
-            for s, n in r['exceptions'].items():
-                exc_sites[s] = exc_sites.get(s, 0) + n
-            if r['warned']:
-                warned_syms[key] = warned_syms.get(key, 0) + 1
-            shapes.add((key, t.get('form'), t['opt'], t.get('env'), r['nonempty'] > 0,
-                        tuple(sorted(f for f in r['hit_files'] if f in sym_files_all(mods, t)))))
-            parsed.update(r.get('parsed', ()))
-            for site, detail in r['found']:
-                ctx.violation(site, iid, detail, {'task': t, 'call': detail.get('call')})
-        if pres.skipped:
+        r = pres.results.get(i)
+        if r is None:
+            continue
+        if 'na' in r:
+            na += 1
+            continue
+        states += 1
+        transitions += r['calls']
+        files_v = tree_files[t['variant']]
+        key = '%s:%s' % (t['variant'], t.get('sym') or (
+            'special:' + t['special'] if t['kind'] == 'special' else 'Project.search'))
+        h = sym_hits.setdefault(key, {'batteries': 0, 'calls': 0, 'calls_with_results': 0,
+                                      'results_in_own_files': 0})
+        own = set(sym_files.get((t['variant'], t.get('sym')), ()))
+        in_tree = sum(n for f, n in r['hit_files'].items() if f in files_v)
+        h['batteries'] += 1
+        h['calls'] += r['calls']
+        h['calls_with_results'] += r['nonempty']
+        h['results_in_own_files'] += sum(n for f, n in r['hit_files'].items()
+                                         if (f in own if own else f in files_v))
+        pointed.update(f for f in r['hit_files'] if f in files_v)
+        if t['kind'] == 'form':
+            fh = form_hits.setdefault(t['form'], {'batteries': 0, 'calls_with_results': 0,
+                                                  'results_in_tree_files': 0})
+            fh['batteries'] += 1
+            fh['calls_with_results'] += r['nonempty']
+            fh['results_in_tree_files'] += in_tree
+        oh = opt_hits.setdefault(t['opt'], {'batteries': 0, 'results_in_tree_files': 0})
+        oh['batteries'] += 1
+        oh['results_in_tree_files'] += in_tree
+        eh = env_hits.setdefault('env=%s/cwd=%s' % (t.get('env', 'default(Project.search)'),
+                                                    t['cwd']), {'batteries': 0, 'calls': 0})
+        eh['batteries'] += 1
+        eh['calls'] += r['calls']
+        for site, n in r['exceptions'].items():
+            exc_sites[site] = exc_sites.get(site, 0) + n
+        if r['warned']:
+            warned_syms[key] = warned_syms.get(key, 0) + 1
+        shapes.add((key, t.get('form'), t['opt'], t.get('env'), r['nonempty'] > 0,
+                    tuple(sorted(f for f in r['hit_files'] if f in files_v))))
+        parsed.update(r.get('parsed', ()))
+        for site, detail in r['found']:
+            ctx.violation(site, iid, detail, {'task': t, 'call': detail.get('call')})
+    done_levels = []
+    exhaustive = True
+    samples = []
+    for li, (name, ts) in enumerate(levels):
+        if level_skipped[li]:
             exhaustive = False
             ctx.note('level %s: %d of %d batteries not explored (time cap)'
-                     % (name, len(pres.skipped), len(tasks)))
+                     % (name, level_skipped[li], len(ts)))
         else:
-            done_levels.append('%s: %d batteries' % (name, len(tasks)))
-        if tasks:
-            samples.append({'level': name, 'input': _input_id(tasks[len(tasks) // 3])})
+            done_levels.append('%s: %d batteries' % (name, len(ts)))
+        if ts:
+            samples.append({'level': name, 'input': _input_id(ts[len(ts) // 3])})
+    if pres.fatal or pres.harness_errors:
+        exhaustive = False
 
     if exc_sites.pop('harness:project-used-an-unwatched-environment', None):
         ctx.harness_error('Project.search used an environment the harness does not watch')
-    all_files = set(sym_files_all(mods, {'variant': 'm'})) | set(sym_files_all(mods, {'variant': 'p'}))
+    all_files = set(tree_files['m']) | set(tree_files['p'])
     ctx.coverage.update({
         'states': states, 'transitions': transitions, 'evaluations': transitions,
         'distinct_nontrivial': len(shapes),
@@ -1105,6 +1271,7 @@ def run(ctx):
         'batteries_with_load_module_refusal_seen_in_process(UserWarning)': warned_syms,
         'control_cpython_executes': cp_control,
         'control_optin_executes': optin,
+        'not_judged:tree_supplied_.jedi/project.json_with_default_project': cfg_probe,
         'api_exceptions_not_judged_here': exc_sites,
         'auto_import_modules': autos, 'real_shared_object': have_so,
     })
@@ -1148,6 +1315,5 @@ def replay(case):
     out = []
     for site, detail in r.get('found', ()):
         out.append((site, _input_id(t), detail))
-    for w in _worlds.values():
-        w.kill_helpers()
+    Procs.kill_helpers()
     return out
